@@ -67,6 +67,13 @@ CHECKS = {
   "note": "Trusted: canonical key, the BruteSolver stub. Only natural errors are injected (no asynchronous exceptions). Unobservable leftovers (ill-typed node in the table, consumed ids / fresh names) are not violations. Known finding F14 (symbol declared by a failed parse survives) is listed in known_findings.json.",
   "technique": "deterministic simulation with fault injection: twin (faulty / fault-free) runs of one seeded call history, natural-error faults at seeded traversal positions, differential oracle, minimisation + exact replay",
  },
+ "C04": {
+  "category": "exploration",
+  "text": "Seeded simulation of 2-4 builder clients on one or two environments: builds of pool formulas through tape-chosen routes (manager methods, shortcuts, infix operators, list vs varargs, every documented constant spelling, both insertion orders of array-value assignments), re-builds, ill-typed attempts in between, simplify/substitute side effects and normalize() in both directions, with a per-environment reference dictionary structural-key -> object recomputed from the public accessors. Invariants after every step: one object per structure and one structure per object, faithful accessors, == iff identity with a stable hash, normalised copies owned by the target manager, sharing nothing with the source and round-tripping to the original object. The formula space itself is only sampled; the simulation adds the order / route / interleaving dimension ('histories').",
+  "design_ref": "DESIGN.md section 4 (C04)",
+  "note": "Trusted: the structural key (dsim/canon.py with ac=False) and the small model of documented constructor normalisations used for accessor faithfulness (0/1-ary collapse, Not(Not x), GE/GT and BV >/>= swaps, ToReal of an integer constant). Constructors with heavier rewriting (Div, Pow) are not generated.",
+  "technique": "deterministic simulation: tape-scheduled builder clients and construction routes against a reference identity map, invariants after every step, minimisation + exact replay",
+ },
 }
 
 ORDER = ["C04", "C14", "C15", "C16", "C17", "C18", "C19"]
